@@ -112,7 +112,16 @@ impl<Aux> Vm<'_, Aux> {
                 let table = res.deref_mut().as_table_mut().unwrap();
                 for OwnedEntry { key, value } in o.iter() {
                     let key = self.insert_value(key)?;
+                    // keep the key alive while the value is being built
+                    let _key_guard = match key {
+                        Value::Object(o) => Some(ObjectGcGuard::new(o)),
+                        _ => None,
+                    };
                     let value = self.insert_value(value)?;
+                    let _value_guard = match value {
+                        Value::Object(o) => Some(ObjectGcGuard::new(o)),
+                        _ => None,
+                    };
                     table.insert(key, value)?;
                 }
                 Value::Object(res.0)
